@@ -627,6 +627,64 @@ def run_voice(args: tuple[str, str]) -> dict[str, Any]:
                                 raise HarnessError(f"voice: session died {desc}: {s.w.loop.errors[-1:]}")
                         finally:
                             s.close()
+    if start_mode == "pending":
+        # one client over two sessions: a start handler still running when the first session is lost must not answer into the second one
+        for unsub_when in ("after-loss", "before-loss"):  # (an application that never unsubscribes is not constrained by the statement)
+            s = Sess()
+            try:
+                w = s.w
+                calls2: list[Any] = []
+                gates2: list[Any] = []
+
+                async def h_start2(conv: str, flags: int, settings: Any, wake: Any) -> Any:
+                    calls2.append(("start", conv))
+                    fut = asyncio.get_running_loop().create_future()
+                    gates2.append(fut)
+                    try:
+                        return await fut
+                    except asyncio.CancelledError:
+                        calls2.append(("start_cancelled",))
+                        raise
+
+                async def h_stop2(abort: bool) -> None:
+                    calls2.append(("stop", abort))
+
+                unsub = s.client.subscribe_voice_assistant(handle_start=h_start2, handle_stop=h_stop2)
+                s.deliver([msg("start", 0)], False)
+                if unsub_when == "before-loss":
+                    unsub()
+                w.io_eof(s.sock)
+                w.drain()
+                if unsub_when == "after-loss":
+                    unsub()  # the application cleans up after the disconnect
+                w.drain()
+                # second session on the same client
+                w.spawn("start2", lambda: w.client.start_connection())
+                w.drain()
+                w.io_connect(w.sock, 0)
+                w.drain()
+                w.spawn("finish2", lambda: w.client.finish_connection(login=True))
+                w.drain()
+                w.io_chunk(w.sock, w.dframe(w.hello_resp()) + w.dframe(w.connect_resp()))
+                w.drain()
+                evals += 1
+                if w.outcome("finish2") != "ok":
+                    raise HarnessError(f"voice: second session failed: {w.results}")
+                n0 = len(w.sent_frames())
+                for g in gates2:
+                    if not g.done():
+                        g.set_result(1111)  # the old handler finishes late
+                w.drain()
+                ids = env.proto_ids()
+                late = [ids.get(t, str(t)) for t, _ in w.sent_frames()[n0:]]
+                d = {"scenario": "two-sessions", "unsub": unsub_when}
+                if "VoiceAssistantResponse" in late:
+                    add(f"voice:stale-answer:{unsub_when}", f"a start handler from the previous session finished after the reconnect and its answer "
+                        f"was written into the new session ({late}); unsubscribe: {unsub_when}", d)
+                if unsub_when != "never" and ("start_cancelled",) not in calls2 and "VoiceAssistantResponse" not in late:
+                    add(f"voice:not-cancelled:{unsub_when}", f"unsubscribe ({unsub_when}) did not cancel the running start handler: {calls2}", d)
+            finally:
+                s.close()
     return {"part": f"voice:{start_mode}", "evals": evals, "viol": viol}
 
 
